@@ -267,6 +267,17 @@ def install(prop, g):
             h["style=" + s.get("evstyle", "str")] += 1
             h["states=%d" % s["n"]] += 1
             h["ops=%d" % min(len(s["ops"]), 12)] += 1
+            for feat, on in (("hosted in another machine's callback", s.get("hosted")),
+                             ("callbacks given as function objects", s.get("callable_names")),
+                             ("callbacks given by @transition decorators", (s.get("decor") or {}).get("cbs")),
+                             ("callbacks given by @state decorators", s.get("state_decor")),
+                             ("from_.any() group", s.get("any_group")),
+                             ("history continues on a deep copy", any(op[0] == "clone" for op in s["ops"])),
+                             ("late listeners", s.get("late")), ("falsy model", s.get("falsy_model")),
+                             ("StopIteration-class exceptions", s.get("stop_iter")),
+                             ("decoy instances", s.get("decoys"))):
+                if on:
+                    h["feature: " + feat] += 1
         oh = collections.Counter()
         for ob in obs:
             for o in ob:
